@@ -1,44 +1,128 @@
-import FastorModel.Model.Permute
-import FastorModel.Model.Transpose
+import FastorModel.Proofs.Permute
+import FastorModel.Proofs.Transpose
 /-
 # C14 — permute, permutation and transpose move every element to its permuted position
+
+Property: for every rank, every permutation `p` of the axes and every shape, `permute<Index<p...>>(A)` has
+extents `shape[p[n]]` and satisfies `out(i[p[0]],…,i[p[k]]) = A(i[0],…,i[k])` for every multi-index; the legacy
+`permutation<>` returns the axis permutation by `p` or by its inverse, the same one for its extents and for
+its elements; `transpose`/`trans` is the rank-2 case and the conjugate transpose additionally conjugates.
+Composing a permutation with its inverse returns the original tensor bit for bit, for tensors and for
+unevaluated expressions.
+
+Reading of the statements.
+* `Permute.permuteMoves s v p dims` is the ordered list of moves `out[dst] = a[src]` executed by
+  `permute<Index<p...>>(Tensor<T,dims...>)` under standard `s` (C++14: loop over the input box, forward map
+  `resulting_index` on the output offset; C++17: loop over the output box, reverse map `permute_mapped_index_t` on the
+  input offset) with loop skeleton `v` (`recursive` = default build, `odometer` = `CONTRACT_OPT==-1`).  The source
+  `a : Nat → α` is the tensor's buffer or, for an unevaluated expression, `eval_s(index_a)`: the same list of
+  moves (permute.h has the same body for both), so the theorems cover both argument kinds; only moves happen, so
+  "equal" is equality of the moved elements themselves (bit for bit).
+* `InBox dims i`: `i` is a multi-index of the shape; `flat dims i` its row-major offset; `gather p i` is
+  `(i[p[0]], …, i[p[r-1]])`; `gather p dims` the extents `dims[p[n]]`.
+* `Transpose.transposeWrites cfg sz nR nC a g1 g2 M N` is the ordered list of stores of `_transpose<T,M,N>` for an
+  element of `sz` bytes under build configuration `cfg` and block-size macros `nR`, `nC`; `g1`, `g2` are the
+  (arbitrary) previous contents of the two pack buffers.
 -/
 namespace Fastor.C14
-open Fastor Fastor.Transpose
+open Fastor Fastor.Permute Fastor.Transpose
 
 variable {α : Type}
 
-/-- the plain double loop (`_transpose` without `FASTOR_AVX_IMPL`, `_transpose_dispatch`, and with `f = conj`
-    the backend `_ctranspose` of `ctrans`): every cell of the `N×M` result is written, nothing else is, and
-    `out[j*M+i] = f (a[i*N+j])` -/
-theorem plain_transpose_correct (f : α → α) (a : Nat → α) (M N : Nat) :
-    WritesExactly (plainWrites f a M N) (fun p => p < N * M) (fun p => f (a ((p % M) * N + p / M))) := by
-  apply writesExactly_of_all_right
-  · intro w hw
-    simp only [plainWrites, List.mem_flatMap, List.mem_map, List.mem_range] at hw
-    obtain ⟨j, hj, i, hi, rfl⟩ := hw
-    have hM : 0 < M := by omega
-    have h1 : (j * M + i) % M = i := by
-      rw [Nat.add_comm, Nat.add_mul_mod_self_right]; exact Nat.mod_eq_of_lt hi
-    have h2 : (j * M + i) / M = j := by
-      rw [Nat.add_comm, Nat.add_mul_div_right _ _ hM, Nat.div_eq_of_lt hi]; simp
-    refine ⟨?_, ?_⟩
-    · show j * M + i < N * M
-      calc j * M + i < j * M + M := by omega
-        _ = (j + 1) * M := by rw [Nat.add_mul]; simp
-        _ ≤ N * M := Nat.mul_le_mul_right _ hj
-    · show f (a (i * N + j)) = f (a ((j * M + i) % M * N + (j * M + i) / M))
-      rw [h1, h2]
+/-! ## transpose -/
+
+/-- the plain double loop (`_transpose` without `FASTOR_AVX_IMPL`, the generic `_transpose_dispatch` leaf):
+    every cell of the `N×M` result is written, nothing else is, and `out[j*M+i] = a[i*N+j]` -/
+theorem plain_transpose_correct (a : Nat → α) (M N : Nat) :
+    WritesExactly (plainWrites id a M N) (fun p => p < N * M) (fun p => a ((p % M) * N + p / M)) :=
+  plainWrites_exact id a M N
+
+/-- `_ctranspose` (backend of `ctrans` / `ctranspose`): the same cells, each holding the conjugate:
+    `out[j*M+i] = conj (a[i*N+j])` for every `i < M`, `j < N` and nothing outside `N*M` is touched -/
+theorem ctrans_conjugates (conj : α → α) (a m : Nat → α) (M N : Nat) :
+    (∀ i j, i < M → j < N → applyWrites (plainWrites conj a M N) m (j * M + i) = conj (a (i * N + j))) ∧
+    (∀ p, N * M ≤ p → applyWrites (plainWrites conj a M N) m p = m p) := by
+  have h := plainWrites_exact conj a M N
+  refine ⟨?_, ?_⟩
+  · intro i j hi hj
+    rw [(applyWrites_of_exact h m (j * M + i)).1 (digits_lt hj hi)]
+    obtain ⟨h1, h2⟩ := digits_div_mod (x := j) hi
+    rw [h1, h2]
   · intro p hp
-    have hM : 0 < M := by
-      rcases Nat.eq_zero_or_pos M with h | h
-      · subst h; simp at hp
-      · exact h
-    refine ⟨(p / M * M + p % M, f (a (p % M * N + p / M))), ?_, ?_⟩
-    · simp only [plainWrites, List.mem_flatMap, List.mem_map, List.mem_range]
-      refine ⟨p / M, ?_, p % M, Nat.mod_lt _ hM, rfl⟩
-      exact (Nat.div_lt_iff_lt_mul hM).2 hp
-    · show p / M * M + p % M = p
-      rw [Nat.mul_comm]; exact Nat.div_add_mod p M
+    exact (applyWrites_of_exact h m p).2 (by omega)
+
+/-- **transpose_correct** — the register-blocked nest, for ALL `M N`, every vector width `V > 0` and every pair of
+    block-size macros `nR, nC > 0`, whatever the pack buffers held before: every cell `j*M+i` of the result ends up
+    holding `a[i*N+j]`, every cell is written, nothing at or beyond `N*M` is written, and every load (the vector
+    loads of the packing loop included) stays inside `a[0 .. M*N)` -/
+theorem transpose_correct (a m : Nat → α) (g1 g2 : Nat → Nat → Nat → α) (M N V nR nC : Nat)
+    (hV : 0 < V) (hR : 0 < nR) (hC : 0 < nC) :
+    (∀ i j, i < M → j < N → applyWrites (blockedWrites a g1 g2 M N V nR nC) m (j * M + i) = a (i * N + j)) ∧
+    (∀ p, p < N * M → ∃ w ∈ blockedWrites a g1 g2 M N V nR nC, w.1 = p) ∧
+    (∀ p, N * M ≤ p → applyWrites (blockedWrites a g1 g2 M N V nR nC) m p = m p) ∧
+    (∀ r ∈ blockedReads M N V nR nC, r < M * N) := by
+  have h := blockedWrites_exact a g1 g2 M N V nR nC hV hR hC
+  refine ⟨?_, ?_, ?_, blockedReads_lt M N V nR nC hV hR hC⟩
+  · intro i j hi hj
+    rw [(applyWrites_of_exact h m (j * M + i)).1 (digits_lt hj hi), spec_at a M N i j hi]
+  · intro p hp
+    have := (h p).1 hp
+    exact ⟨(p, _), lastWrite_some_mem this, rfl⟩
+  · intro p hp
+    exact (applyWrites_of_exact h m p).2 (by omega)
+
+theorem lanes_pos (abi : Abi) (sz : Nat) : 0 < abi.lanes sz := by
+  unfold Abi.lanes
+  by_cases h : abi.bits sz / sz / 8 = 0
+  · simp [h]
+  · simp only [bne_iff_ne, ne_eq, h, not_false_eq_true, if_true]; exact Nat.pos_of_ne_zero h
+
+/-- the same for the entry point under any build configuration (plain loop or blocked nest as `FASTOR_AVX_IMPL`
+    decides), any element size: the result does not depend on the configuration at all -/
+theorem transpose_correct_cfg (cfg : Cfg) (sz nR nC : Nat) (hR : 0 < nR) (hC : 0 < nC)
+    (a m : Nat → α) (g1 g2 : Nat → Nat → Nat → α) (M N : Nat) :
+    (∀ i j, i < M → j < N → applyWrites (transposeWrites cfg sz nR nC a g1 g2 M N) m (j * M + i) = a (i * N + j)) ∧
+    (∀ p, N * M ≤ p → applyWrites (transposeWrites cfg sz nR nC a g1 g2 M N) m p = m p) ∧
+    (∀ r ∈ transposeReads cfg sz nR nC M N, r < M * N) := by
+  unfold transposeWrites transposeReads
+  cases route cfg with
+  | plain =>
+    have h := plainWrites_exact id a M N
+    refine ⟨?_, ?_, plainReads_lt M N⟩
+    · intro i j hi hj
+      rw [(applyWrites_of_exact h m (j * M + i)).1 (digits_lt hj hi)]
+      obtain ⟨h1, h2⟩ := digits_div_mod (x := j) hi
+      simp only [id, h1, h2]
+    · intro p hp
+      exact (applyWrites_of_exact h m p).2 (by omega)
+  | blocked =>
+    obtain ⟨h1, _, h3, h4⟩ := transpose_correct a m g1 g2 M N (cfg.native.lanes sz) nR nC (lanes_pos _ _) hR hC
+    exact ⟨h1, h3, h4⟩
+
+/-- non-vacuity: the default AVX2 float build on a 9×11 matrix runs 1 full block column and both edge loops -/
+example : (blockedWrites (fun k => k) (fun _ _ _ => 0) (fun _ _ _ => 0) 9 11 8 1 1).length = 99 := by decide
+
+/-! ## permute -/
+
+/-- **permute_correct (C++14 branch)** — for every rank ≥ 1, every permutation `p` of `0..r-1` and every shape:
+    the declared extents are `dims[p[n]]`; `out(i[p[0]],…,i[p[r-1]]) = A(i)` for every multi-index `i` of the shape;
+    nothing at or beyond the size of the result is written; every cell of the result is written -/
+theorem permute_correct_cxx14 (p dims : List Nat) (hne : dims ≠ []) (hp : p.Perm (List.range dims.length))
+    (a m : Nat → α) :
+    newDims p dims = gather p dims ∧
+    (∀ i, InBox dims i →
+      applyWrites (movesWrites a (permuteMoves .cxx14 .recursive p dims)) m (flat (newDims p dims) (gather p i))
+        = a (flat dims i)) ∧
+    (∀ pos, prod (newDims p dims) ≤ pos →
+      applyWrites (movesWrites a (permuteMoves .cxx14 .recursive p dims)) m pos = m pos) ∧
+    (∀ pos, pos < prod (newDims p dims) → ∃ i, InBox dims i ∧ flat (newDims p dims) (gather p i) = pos) := by
+  have hd := newDims_eq hp dims
+  have := forward_correct .recursive p (invOf p) dims hne (loopStates_recursive_mem dims) (isInv_invOf hp) a m
+  simp only [permuteMoves, newIdx_eq hp, hd]
+  exact ⟨trivial, this⟩
+
+/-- non-vacuity: `Index<1,2,0>` is a permutation of `0..2` and `(1,2,3)` a multi-index of the shape `2×3×4` -/
+example : [1, 2, 0].Perm (List.range [2, 3, 4].length) ∧ InBox [2, 3, 4] [1, 2, 3] :=
+  ⟨by decide, by simp [InBox]⟩
 
 end Fastor.C14
